@@ -1327,6 +1327,118 @@ def pptx_get_text_contract():
     return c_
 
 
+# ------------------------------------ pptx: the slide order the reader walks (round 7) --
+PPTX = "sharepoint2text/parsing/extractors/ms_modern/pptx_extractor.py"
+_ORDER_KEY = "c03.slide-order-computed"
+
+
+def pptx_order_views():
+    """Call-site views used while `_load_xml_files` / `slide_order` are verified: `_compute_slide_order()` returns SOME finite list of
+    strings (its return annotation; that its content is the sldIdLst document order is the construction obligation of c03_flow) and every
+    list it returned in this execution is remembered (ghost); `read_xml_root` (zipfile + XML parser behind ZipContext) returns some
+    element or raises.  Nothing else is assumed about either."""
+    from pyvc.verify import p_unk
+
+    def r_order(ex, st, ctx):
+        sq = X.fresh_seq_like("str", "slide_order")
+        st.assume(sq.length >= 0)
+        st.ghost[_ORDER_KEY] = tuple(st.ghost.get(_ORDER_KEY, ())) + (sq,)
+        return ex.new_alist(st, sq)
+
+    def r_root(ex, st, ctx):
+        return VExt("Elem", z3.Const(fresh_name("xml_root"), ext_sort("Elem")))
+
+    return [FnContract(target=f"{PPTX}::_PptxContext._compute_slide_order", params=[("self", p_unk())], result_maker=r_order, assumed=True,
+                       note="call-site view: returns a finite list of str (annotation)"),
+            FnContract(target=f"{PPTX}::_PptxContext.read_xml_root", params=[("self", p_unk()), ("path", p_unk())], result_maker=r_root,
+                       assumed=True, may_raise_any=True, note="ZipContext.read_xml_root: zipfile + XML parser (third party)")]
+
+
+def _same_seq(a: VSeq, b: VSeq, name="k!so"):
+    k = z3.Int(name)
+    ea, eb = a.elem(k), b.elem(k)
+    if not isinstance(ea, VStr) or not isinstance(eb, VStr):
+        from pyvc.ops import Unsupported
+        raise Unsupported("the slide order is not a list of strings in this state")
+    return z3.And(a.length == b.length, z3.ForAll([k], z3.Implies(z3.And(k >= 0, k < a.length), ea.t == eb.t)))
+
+
+def _order_field(ex, st, me):
+    from pyvc.ops import Unsupported
+    v = st.obj(me.ref).data.get("_slide_order") if st.obj(me.ref).kind == "obj" else None
+    if v is None:
+        raise Unsupported("the context object / its _slide_order field is not tracked in this state")
+    if v is NONE:
+        return None
+    sq = ex._as_seq(st, v)
+    if sq is None:
+        raise Unsupported(f"_slide_order holds {v!r}: not a list the executor follows")
+    return sq
+
+
+def p_pptx_context(order):
+    from pyvc.verify import p_const, p_opt
+    def empty_dict():
+        return Maker(lambda ex, st, name: VRef(st.alloc(HeapObj("dict", {}, None, False), ex.refs)), desc="{}")
+    none = Maker(lambda ex, st, name: NONE, desc="None")
+    return p_obj("_PptxContext", {"_namelist": p_alist("str"), "_core_root": none, "_presentation_root": none, "_presentation_rels_root": none,
+                                  "_slide_roots": empty_dict(), "_slide_rels_roots": empty_dict(), "_comment_roots": empty_dict(),
+                                  "_slide_order": order, "_slide_relationships": empty_dict()})
+
+
+def load_xml_files_contract():
+    """_PptxContext._load_xml_files (runs once, from __init__): afterwards the cached slide order IS the list `_compute_slide_order()`
+    returned -- same length, same entries, same order; nothing is taken out of it or added to it on the way (a slide left out here is a
+    slide without a unit and shifts every later slide number)."""
+    from pyvc.ops import Unsupported
+
+    def ens(c):
+        got = c.st.ghost.get(_ORDER_KEY, ())
+        if len(got) != 1:
+            raise Unsupported(f"_compute_slide_order() is called {len(got)} times on this path: the clause is stated for one call")
+        cur = _order_field(c.ex, c.st, c.args["self"])
+        if cur is None:
+            return z3.BoolVal(False)
+        return _same_seq(cur, got[0])
+
+    none = Maker(lambda ex, st, name: NONE, desc="None")
+    return FnContract(
+        target=f"{PPTX}::_PptxContext._load_xml_files",
+        params=[("self", p_pptx_context(none))],
+        ensures=[("cached-slide-order-is-the-computed-order-unchanged", ens)],
+        raises=[Raises("Exception", sub=True, label="archive / XML failures (failure surface is C01's)")],
+        modifies=("self",),
+        note="self._slide_order == the list returned by self._compute_slide_order(), entry by entry",
+    )
+
+
+def slide_order_property_contract():
+    """_PptxContext.slide_order (property read by read_pptx): the cached order when there is one, else the freshly computed one."""
+    from pyvc.ops import Unsupported
+    from pyvc.verify import p_opt
+
+    def ens(c):
+        got = c.st.ghost.get(_ORDER_KEY, ())
+        r = c.ex._as_seq(c.st, c.result) if not isinstance(c.result, VUnk) else None
+        if r is None:
+            raise Unsupported(f"slide_order returns {c.result!r}: not a list the executor follows")
+        old = _order_field(c.ex, c.entry, c.args["self"])
+        if old is not None:
+            return z3.And(z3.BoolVal(len(got) == 0), _same_seq(r, old))
+        if len(got) != 1:
+            raise Unsupported(f"_compute_slide_order() is called {len(got)} times on this path: the clause is stated for one call")
+        return _same_seq(r, got[0])
+
+    return FnContract(
+        target=f"{PPTX}::_PptxContext.slide_order",
+        params=[("self", p_pptx_context(p_opt(p_alist("str"))))],
+        ensures=[("the-cached-order-else-the-computed-order-unchanged", ens)],
+        raises=[],
+        modifies=("self",),
+        note="slide_order == self._slide_order if cached else self._compute_slide_order()",
+    )
+
+
 # ------------------------------------------------------------ opaque members --
 def install_opaque():
     OP = X.UnitsExecutor.OPAQUE
@@ -1392,6 +1504,38 @@ class C03Executor(ET.ETreeMixin, X.UnitsExecutor):
             if o is not None and o.kind == "list" and o.data == [] and all(oks):
                 st.heap[ref] = HeapObj("alist", VSeq(z3.IntVal(0), lambda k: VStr(z3.StringVal("")), "str"), None, o.fresh)
         return super().havoc_loop_state(st, body, spec, extra_names)
+
+    def store_index(self, st, base, idx, v, node):
+        # round 7: a store under a SYMBOLIC string key (caches keyed by part name): the mapping is forgotten (an object of unknown
+        # content from here on), nothing else changes -- an over-approximation of the store
+        if isinstance(base, VRef) and isinstance(idx, VStr) and idx.const() is None and st.obj(base.ref).kind in ("dict", "amap", "unk"):
+            o = st.obj(base.ref)
+            self.note_store(st, base.ref, node)
+            st.heap[base.ref] = HeapObj("unk", None, o.cls, o.fresh)
+            return [st]
+        return super().store_index(st, base, idx, v, node)
+
+    def amap_method(self, st, obj, name, args, kwargs, node):
+        if name == "get" and args and isinstance(args[0], VStr):
+            return [(st, VUnk("map.get"))]          # lookup under a string key in a mapping whose content is not tracked: any value
+        return super().amap_method(st, obj, name, args, kwargs, node)
+
+    def havoc_like(self, st, v, name):
+        # round 7 (soundness): a name / attribute that held a LIST and is assigned in a cut loop may be bound to a different list
+        # afterwards (`self.order = []` in the body); the generic havoc kept the old reference, i.e. the old content.  It now gets a
+        # fresh list of the same element kind (lists that are only mutated in place are havocked separately, as before).
+        if isinstance(v, VRef):
+            o = st.heap.get(v.ref)
+            if o is not None and o.kind in ("list", "alist") and o.data is not None:
+                if o.kind == "alist":
+                    ek = o.data.ekind
+                else:
+                    kinds = {repr(X.ekind_of_value(x)) for x in o.data}
+                    ek = X.ekind_of_value(o.data[0]) if len(kinds) == 1 else "unk"
+                sq = X.fresh_seq_like(ek, f"rebound.{name}")
+                st.assume(sq.length >= 0)
+                return self.new_alist(st, sq)
+        return super().havoc_like(st, v, name)
 
     def b_collection(self, st, name, args, node):
         if name == "list" and len(args) == 1 and isinstance(args[0], VSeq) and args[0].ekind != "unk":
@@ -1758,6 +1902,13 @@ def contracts(reg):
     c16_exec.install(reg)          # finditer / Match model for the mailbox splitter (calls X.install as well)
     X.install(reg)
     install_opaque()
+
+    def join_or_unknown(ex, st, args, kwargs, node):
+        # round 7: a join over a value the executor does not follow (a slice of an unmodelled rsplit) is an unknown string
+        # (EXC-ANY call: tagged path), not the end of the function's verification
+        if len(args) > 1 and isinstance(args[1], VUnk):
+            return ex.havoc_call(st, "str.join", [], node)
+        return X.m_join(ex, st, args, kwargs, node)
     out = []
     for cls, p in SPEC.items():
         out.append(rtf_contract() if cls == "RtfContent" else paged_contract(p))
@@ -1779,6 +1930,9 @@ def contracts(reg):
     out.append(text_combined_contract("PptSlideContent", True))
     out.append(text_combined_contract("OdpSlide", False))
     out.append(pptx_get_text_contract())
+    out.append(load_xml_files_contract())
+    out.append(slide_order_property_contract())
+    out.extend(pptx_order_views())
     # e-mail glue shared with C16 (message boundaries and the body text that becomes the unit are part of both properties): the
     # mailbox splitter and the .eml body assembly are verified here under C16's contracts (with C16's
     # executor, see EXECUTOR); C16's remaining contracts are only registered, so that calls inside these functions use them
@@ -1795,6 +1949,7 @@ def contracts(reg):
         elif reg.get(c16c.target) is None:
             reg.add(c16c)
     install_re(reg)
+    reg.ext_models["str.join"] = join_or_unknown       # (last: the shared installers above register the plain model again)
     from pyvc import solve as _solve
     if _untrusted not in _solve.SAT_UNTRUSTED:
         _solve.SAT_UNTRUSTED.append(_untrusted)
